@@ -28,7 +28,7 @@ from explore import Violation
 from lattice import Dim, base_opts, build_args, deviations
 
 PROP = "C08"
-LINE_CONTENTS = ["a", "b c", "b  c ", "\tx", "", "y" * 31 + "漢 ", "d\r"]   # the last one: a CRLF line
+LINE_CONTENTS = ["a", "b c", "b  c ", "\tx", "", "y" * 31 + "漢 ", "d\r", "e\r\r"]   # the last two: a CRLF line, a CR CR LF line
 
 DIMS = [
     Dim("view", [("unified", {}), ("sbs", {"side-by-side": True})]),
